@@ -410,29 +410,19 @@ class MultipartRelatedConsolidator(ConsolidatorBase):
             """
             flags, width, precision, type_char = match.groups()
 
-            # Handle the flags
-            flag_str = ""
-            if "-" in flags:
-                flag_str = "<"  # Left-align
-            if "+" in flags:
-                flag_str += "+"  # Show positive sign
-            elif " " in flags:
-                flag_str += " "  # Space before positive numbers
-            if "0" in flags:
-                flag_str += "0"  # Zero padding
+            # Sign flag: "+" takes precedence over " ", as in C
+            sign_str = "+" if "+" in flags else " " if " " in flags else ""
 
-            # Build width and precision if they exist
-            width_str = width if width else ""
-            precision_str = f".{precision}" if precision else ""
+            # Handle cases like "%6.6d", which should be converted to "{:06d}": C pads the digits (not the
+            # field) with zeros up to the precision and ignores the "0" flag; the sign, if any, comes on top
+            if precision:
+                min_width = max(int(precision) + len(sign_str), int(width or 0))
+                return f"{{:{sign_str}0{min_width}{type_char}}}"
 
-            # Handle cases like "%6.6d", which should be converted to "{:06d}"
-            if precision and width:
-                flag_str = "0"
-                precision_str = ""
-                width_str = str(max(precision, width))
-
-            # Construct the new-style format specifier
-            return f"{{:{flag_str}{width_str}{precision_str}{type_char}}}"
+            # Otherwise "-" left-aligns (and overrides "0", as in C) and "0" pads with zeros after the sign
+            align_str = "<" if "-" in flags else ""
+            zero_str = "0" if "0" in flags and "-" not in flags else ""
+            return f"{{:{align_str}{sign_str}{zero_str}{width or ''}{type_char}}}"
 
         self.template = (
             self._sres_parameters["template"]
